@@ -206,22 +206,40 @@ func (e *ev) quiescentFunc(fn *ssa.Function) (bool, string) {
 				return
 			}
 		} else if phi, ok := v.(*ssa.Phi); ok {
-			// short-circuit &&: every non-false edge must be the idle comparison, reached after the empty edge
-			for i, ed := range phi.Edges {
+			// short-circuit && and merged exits: every non-false incoming value must be the idle comparison reached
+			// after the empty edge, or a `true` reached like a plain `return true`; nested φs are followed
+			var edge func(ed ssa.Value, pred *ssa.BasicBlock, d int)
+			edge = func(ed ssa.Value, pred *ssa.BasicBlock, d int) {
+				if !okAll {
+					return
+				}
 				if k, ok := ed.(*ssa.Const); ok && !constBool(k) {
-					continue
+					return
+				}
+				fake := pred.Instrs[len(pred.Instrs)-1]
+				if k, ok := ed.(*ssa.Const); ok && constBool(k) {
+					if reachWithout(fn, fake, empties, idles, failed, true) {
+						okAll, why = false, "can return true without observing len(writeQueue)==0 and then running==idle, in that order"
+					}
+					return
+				}
+				if inner, ok := ed.(*ssa.Phi); ok && d < 4 {
+					for i, e2 := range inner.Edges {
+						edge(e2, inner.Block().Preds[i], d+1)
+					}
+					return
 				}
 				isIdle, ok := e.runningIdleCmp(ed)
 				if !ok || !isIdle {
 					okAll, why = false, "a conjunct of the returned condition is not the idle test of the sender flag: "+ed.String()
 					return
 				}
-				pred := phi.Block().Preds[i]
-				fake := pred.Instrs[len(pred.Instrs)-1]
 				if reachWithout(fn, fake, empties, idles, failed, false) {
 					okAll, why = false, "can report quiescence without having observed the write queue empty first (the flag alone reads idle between the sender's release and its re-check: accepted packet lost on Close)"
-					return
 				}
+			}
+			for i, ed := range phi.Edges {
+				edge(ed, phi.Block().Preds[i], 0)
 			}
 			return
 		} else if c, ok := v.(*ssa.Const); !(ok && constBool(c)) {
@@ -364,7 +382,14 @@ func ruleFailedSenderReleasesCloser(c *core.Ctx, e *ev, R string) {
 			// set side returns true on every path
 			t, _ := core.Search(nil, k[1], func(x ssa.Instruction) core.Action {
 				if ret, ok := x.(*ssa.Return); ok {
-					if kc, ok := ret.Results[0].(*ssa.Const); ok && constBool(kc) {
+					// a merged exit returns a φ: the values it carries on paths from the failed side
+					allTrue := true
+					for _, v := range phiEdgesFrom(ret.Results[0], k[1], nil) {
+						if kc, ok := v.(*ssa.Const); !ok || !constBool(kc) {
+							allTrue = false
+						}
+					}
+					if allTrue {
 						return core.Barrier
 					}
 					return core.Target
